@@ -800,7 +800,8 @@ def rule_copier_derefs(em, rep, rid, fr):
 def rule_interface_complete(em, rep, rid):
     rep.rule(rid, 'every concrete subclass of IUnifiable defines get_value, to_python and unify')
     iu = em.repo.cls('engine', 'IUnifiable')
-    subs = em.repo.subclasses(iu, strict=True)
+    # classes that are constructed somewhere (an abstract intermediate class need not be complete)
+    subs = [c for c in em.repo.subclasses(iu, strict=True) if c in em.repo.instantiated()]
     rep.minimum('term classes', len(subs), 3)
     for c in subs:
         missing = [m for m in ('get_value', 'to_python', 'unify') if em.repo.lookup_method(c, m) in (None, iu.methods.get(m))]
@@ -901,7 +902,9 @@ def rule_constant_agreement(em, rep, rid):
             else:
                 rep.violation(rid, 'context:ATOM_NIL', 'the name ATOM_NIL in loaded code is %s' % norm(v), em.engine.loc(v))
     # name comparison of atoms
-    au = atom.methods.get('unify')
+    au = em.repo.lookup_method(atom, 'unify')
+    if au is None:
+        raise AnalysisError('anchor vanished: Atom.unify')
     cmp_ = [x for x in own_nodes(au.node) if isinstance(x, ast.Compare) and '_name' in norm(x)]
     if cmp_ and all(isinstance(c.ops[0], (ast.Eq, ast.NotEq)) for c in cmp_):
         rep.ok(rid, 'atom-unify-by-name', 'atoms unify when their names are equal (==), also across engines', au.loc(cmp_[0]))
@@ -923,7 +926,7 @@ def rule_atoms_unify_by_name(em, rep, rid):
     rep.rule(rid, 'two atoms unify exactly when their names are equal (a comparison with == / != on the name in Atom.unify): '
                   'identity would make atoms created with Atom(...), by another engine, or before a clear() different terms')
     atom = em.repo.cls('engine', 'Atom')
-    au = atom.methods.get('unify')
+    au = em.repo.lookup_method(atom, 'unify')
     if au is None:
         raise AnalysisError('anchor vanished: Atom.unify')
     cmp_ = [x for x in own_nodes(au.node) if isinstance(x, ast.Compare) and '_name' in norm(x)]
